@@ -655,7 +655,9 @@ fn main() {
     let out = args.str("out", ".work/life");
     let corpus = args.str("replay-ops", "");
     let only_replay = args.u64("only-replay", 0) != 0;
-    let local = args.u64("local", 0) != 0;
+    // 0: Send actors; 1: native thread-local actors; 2: Send actors on the thread-local spawner
+    // through the blanket adapter `impl<T: Actor + Default> ThreadLocalActor for T`
+    let local = args.u64("local", 0);
     let do_sweep = args.u64("sweep", 1) != 0 && !only_replay;
     let cases = if only_replay { 0 } else { cases };
     run_paused(async move {
@@ -669,7 +671,9 @@ fn main() {
             pending_waits: Vec::new(),
             held: Default::default(),
         };
-        if local {
+        if local == 2 {
+            run.w.use_thread_local_adapter();
+        } else if local == 1 {
             // thread-local actor variant: every actor is a `ThreadLocalActor` on one spawner thread
             run.w.use_thread_local();
         }
